@@ -61,7 +61,7 @@ def gen_case(seed):
         # coefficients with no, one or two symbolic factors (a product of several symbols must survive as a whole)
         sym = rng.choice([[], [], [k], [k], [0, 1]])
         rules.append({'from': rng.choice(units[s][:3]), 'to': rng.choice(units[t][:3]), 'div': div,
-                      'kq': rng.choice(['12', '1.1', '0.5', '2', '96', '1', '1', '-1', '-2.5']), 'ksym': sym,
+                      'kq': rng.choice(['12', '1.1', '0.5', '2', '96', '1', '1', '-1', '-2.5', '1.0000002', '0.99999985']), 'ksym': sym,
                       'kunit': ('get', 0, kname)})
     dim_pairs = [('X', 'Y'), ('Y', 'X'), ('X', 'Z'), ('Y', 'Z'), ('Z', 'X'), ('X', 'X'), ('Y', 'Y')]
     if composite:
